@@ -16,15 +16,19 @@ import (
 	"encoding/binary"
 	"fmt"
 	"os"
+	"runtime"
 	"strings"
 	"sync"
 	"time"
 
+	"github.com/33cn/chain33/common"
 	"github.com/33cn/chain33/common/address"
 	"github.com/33cn/chain33/common/crypto"
 	log "github.com/33cn/chain33/common/log/log15"
 	"github.com/33cn/chain33/queue"
 	_ "github.com/33cn/chain33/system"
+	cty "github.com/33cn/chain33/system/dapp/coins/types"
+	nty "github.com/33cn/chain33/system/dapp/none/types"
 	"github.com/33cn/chain33/system/mempool"
 	"github.com/33cn/chain33/types"
 	"verifharness/hlib"
@@ -51,6 +55,7 @@ var (
 	errCls     = map[string]int{}
 	closers    sync.WaitGroup
 	nSub       int
+	nSlip      int
 )
 
 func initKeys() {
@@ -85,19 +90,38 @@ func initKeys() {
 	}
 }
 
-func getCfg(para bool, maxTxNum int) *types.Chain33Config {
-	k := fmt.Sprintf("%v/%d", para, maxTxNum)
+// fork heights of one history (0 = active from the start, as in the "local" configuration)
+type forkSpec struct {
+	Strict     int64 `json:"strict,omitempty"`     // ForkTxChainIDStrict
+	BlockCheck int64 `json:"blockcheck,omitempty"` // ForkBlockCheck
+	TxHeight   int64 `json:"txheight,omitempty"`   // ForkTxHeight
+	ParaFork   int64 `json:"parafork,omitempty"`   // ForkTxGroupPara
+}
+
+const paraTitle = "user.p.test."
+
+func getCfg(para bool, maxTxNum int, f forkSpec) *types.Chain33Config {
+	k := fmt.Sprintf("%v/%d/%v", para, maxTxNum, f)
 	if c, ok := cfgs[k]; ok {
 		return c
 	}
 	s := types.GetDefaultCfgstring()
 	if para {
-		s = strings.Replace(s, `Title="local"`, `Title="user.p.test."`, 1)
+		s = strings.Replace(s, `Title="local"`, `Title="`+paraTitle+`"`, 1)
 	}
 	s = strings.Replace(s, "maxTxNumber = 10000", fmt.Sprintf("maxTxNumber = %d", maxTxNum), -1)
 	c := types.NewChain33Config(s)
-	if c.IsPara() != para || c.GetP(1).MaxTxNumber != int64(maxTxNum) || c.GetP(50).MaxTxNumber != int64(maxTxNum) {
+	c.SetFork(types.ForkTxChainIDStrict, f.Strict)
+	c.SetFork("ForkBlockCheck", f.BlockCheck)
+	c.SetFork("ForkTxHeight", f.TxHeight)
+	c.SetFork("ForkTxGroupPara", f.ParaFork)
+	if c.IsPara() != para || len(c.GetModuleConfig().RPC.ParaChain.ForwardExecs) != 0 {
 		panic("configuration variant not effective")
+	}
+	for _, h := range []int64{1, 50, 400} {
+		if c.GetMaxTxFee(h) != c.GetMaxTxFee(1) || c.GetP(h).MaxTxNumber != int64(maxTxNum) {
+			panic("fee limit / MaxTxNumber vary with the height")
+		}
 	}
 	cfgs[k] = c
 	return c
@@ -111,6 +135,8 @@ func initErrClasses() {
 		types.ErrTxChainID: 4, types.ErrTxFeeTooLow: 5, types.ErrTxFeeTooHigh: 6, types.ErrTxMsgSizeTooBig: 7,
 		types.ErrTxGroupFeeNotZero: 8, types.ErrInvalidAddress: 9, types.ErrManyTx: 11, types.ErrTxExpire: 12,
 		types.ErrSign: 13, types.ErrDupTx: 14, types.ErrLowNonce: 16, types.ErrTxExist: 18, types.ErrMemFull: 19,
+		types.ErrTxGroupParaCount: 20, types.ErrTxGroupParaMainMixed: 21,
+		types.ErrNilTransaction: 26, types.ErrCacheOverFlow: 27, types.ErrInvalidParam: 28,
 	} {
 		errCls[e.Error()] = c
 	}
@@ -122,8 +148,17 @@ func classify(msg string) int {
 	if c, ok := errCls[msg]; ok {
 		return c
 	}
-	if strings.HasPrefix(msg, types.ErrBlockedAccount.Error()) {
-		return 10
+	if pre := types.ErrBlockedAccount.Error() + ": "; strings.HasPrefix(msg, pre) {
+		// the position is part of the error text
+		for _, pc := range []struct {
+			p string
+			c int
+		}{{"from ", 10}, {"to ", 22}, {"real to ", 23}, {"evm contract addr ", 24}, {"evm transfer to ", 25}} {
+			if strings.HasPrefix(msg[len(pre):], pc.p) {
+				return pc.c
+			}
+		}
+		return 97
 	}
 	if strings.Contains(msg, "proto") || strings.Contains(msg, "EOF") || strings.Contains(msg, "unmarshal") {
 		return 3 // undecodable group header
@@ -134,12 +169,15 @@ func classify(msg string) int {
 // ---------------------------------------------------------------- history description (replayable)
 
 type txSpec struct {
-	Uniq     uint64 `json:"uniq"`
-	Sender   int    `json:"sender"`
-	SigMode  string `json:"sig,omitempty"`   // "" ok | flip | nil | other
-	Other    int    `json:"other,omitempty"` // "other": public key of this account, signature of Sender
-	To       string `json:"to,omitempty"`    // "" valid | bad | blocked | evmcontract | evmpara | evmok
-	ExpMode  string `json:"exp,omitempty"`   // "" none | height | bt | now | txheight | abs
+	Uniq    uint64 `json:"uniq"`
+	Sender  int    `json:"sender"`
+	SigMode string `json:"sig,omitempty"`   // "" ok | flip | nil | other
+	Other   int    `json:"other,omitempty"` // "other": public key of this account, signature of Sender
+	To      string `json:"to,omitempty"`    // "" valid | bad | blocked | evmcontract | evmpara | evmok |
+	// coins transfers whose payload names the recipient: realblocked (To = exec address, payload To listed) |
+	// realok (To = exec address, payload To not listed) | realsame (To = payload To) | realsameblocked (both listed)
+	Exec     string `json:"exec,omitempty"` // "" this chain's none | main | paraA (user.p.test.) | paraB (user.p.other.) | notitle (user.p.foo)
+	ExpMode  string `json:"exp,omitempty"`  // "" none | height | bt | now | txheight | abs
 	ExpOff   int64  `json:"expoff,omitempty"`
 	FeeK     int64  `json:"feek"` // fee = owed(rate MinFee*FeeK) + FeeDelta (head of a group: sum over members)
 	FeeDelta int64  `json:"feed,omitempty"`
@@ -164,6 +202,21 @@ type subSpec struct {
 	WrapNonce  int64    `json:"wrapnonce,omitempty"`
 	BadCount   int32    `json:"badcount,omitempty"`
 	Viol       []string `json:"viol,omitempty"` // labels only (histogram)
+	// Op "" = EventTx; "delay" = EventAddDelayTx carrying this transaction (Kind nil: a DelayTx without Tx,
+	// Kind baddata: a message that is not a DelayTx) with EndDelayTime = EndMode(bt|height|abs) + EndOff
+	Op      string `json:"op,omitempty"`
+	EndMode string `json:"endmode,omitempty"`
+	EndOff  int64  `json:"endoff,omitempty"`
+	// Kind "block": EventAddBlock with Height = BH, BlockTime = initial block time + BBT, delivered when the
+	// clock shows initial now + BNow; its transactions are those of the earlier submissions BTxs (marked
+	// on-chain from then on) and one none/CommitDelayTx transaction per entry of Commits
+	BH      int64     `json:"bh,omitempty"`
+	BBT     int64     `json:"bbt,omitempty"`
+	BNow    int64     `json:"bnow,omitempty"`
+	BTxs    []int     `json:"btxs,omitempty"`
+	Commits []subSpec `json:"commits,omitempty"`
+	RelTime int64     `json:"reltime,omitempty"` // of a commit
+	RelH    int64     `json:"relh,omitempty"`
 }
 
 type histSpec struct {
@@ -182,6 +235,7 @@ type histSpec struct {
 	Height      int64     `json:"height"`
 	BtBack      int64     `json:"btback"` // block time = now - BtBack
 	Nonces      [2]int64  `json:"nonces"` // current evm nonce of the two eth senders
+	Forks       forkSpec  `json:"forks"`
 	Subs        []subSpec `json:"subs"`
 }
 
@@ -193,7 +247,7 @@ type facts struct {
 	HasSig  bool
 	SigOK   bool
 	ToValid bool
-	Blocked bool
+	Bl      int // blacklist facts, bits as in Model.v t_bl
 	OnChain bool
 	Expire  int64
 	HdrEmp  bool
@@ -204,6 +258,9 @@ type facts struct {
 	Nonce   int64
 	ExecOK  bool
 	SigID   int // identity of the Signature message (type, public key, signature bytes); 0 = none/empty
+	Para    int // 0 no user.p. prefix, 1 prefix without title, 2.. title identity
+	HasG    bool
+	GExp    []int64
 }
 
 type built struct {
@@ -215,23 +272,28 @@ type built struct {
 	memTxs  []*types.Transaction
 	struOK  bool
 	forward bool
+	end     int64 // EndDelayTime of a delayed submission
+	rt, rh  int64 // of a commit
 }
 
 type run struct {
-	spec   histSpec
-	cfg    *types.Chain33Config
-	now    int64
-	bt     int64
-	q      queue.Queue
-	cli    queue.Client
-	mem    *mempool.Mempool
-	mu     sync.Mutex
-	onCh   map[string]bool
-	exBad  map[string]bool
-	idOf   map[string]int
-	sigOf  map[string]int
-	hashes [][]byte
-	subs   []*built
+	spec    histSpec
+	cfg     *types.Chain33Config
+	now     int64
+	bt      int64
+	q       queue.Queue
+	cli     queue.Client
+	mem     *mempool.Mempool
+	mu      sync.Mutex
+	onCh    map[string]bool
+	exBad   map[string]bool
+	idOf    map[string]int
+	sigOf   map[string]int
+	hashes  [][]byte
+	subs    []*built
+	slipped bool  // a step took so long that the pinned second rolled over: the history is run again
+	clock   int64 // the virtual clock (moved by block steps)
+	height  int64 // the pool's header as the harness knows it (labels only)
 }
 
 func (ru *run) id(h []byte) int {
@@ -273,20 +335,56 @@ func (ru *run) expire(t txSpec) int64 {
 	return 0
 }
 
-func (ru *run) execer() []byte {
+func (ru *run) title() string {
 	if ru.spec.Para {
-		return []byte("user.p.test.none")
+		return paraTitle
 	}
-	return []byte("none")
+	return ""
+}
+
+// execerOf: the execer a transaction spec asks for; a transaction that is to be forwarded carries a
+// main-chain execer
+func (ru *run) execerOf(t txSpec, forward bool, base string) []byte {
+	switch t.Exec {
+	case "main":
+		return []byte(base)
+	case "paraA":
+		return []byte(paraTitle + base)
+	case "paraB":
+		return []byte("user.p.other." + base)
+	case "notitle":
+		return []byte("user.p.foo")
+	}
+	if forward {
+		return []byte(base)
+	}
+	return []byte(ru.title() + base)
+}
+
+// paraID: the harness's own reading of an execer (0 no "user.p." prefix, 1 prefix but no further dot,
+// 2.. identity of the title up to and including that dot)
+func paraID(execer []byte) int {
+	e := string(execer)
+	if !strings.HasPrefix(e, "user.p.") {
+		return 0
+	}
+	i := strings.Index(e[len("user.p."):], ".")
+	if i < 0 {
+		return 1
+	}
+	switch e[:len("user.p.")+i+1] {
+	case paraTitle:
+		return 2
+	case "user.p.other.":
+		return 3
+	}
+	return 4
 }
 
 func (ru *run) body(t txSpec, forward bool) *types.Transaction {
 	p := make([]byte, 8+t.Pad)
 	binary.LittleEndian.PutUint64(p, t.Uniq)
-	tx := &types.Transaction{Execer: ru.execer(), Payload: p, Expire: ru.expire(t), Nonce: t.Nonce, ChainID: ru.cfg.GetChainID()}
-	if forward {
-		tx.Execer = []byte("none")
-	}
+	tx := &types.Transaction{Execer: ru.execerOf(t, forward, "none"), Payload: p, Expire: ru.expire(t), Nonce: t.Nonce, ChainID: ru.cfg.GetChainID()}
 	switch t.To {
 	case "bad":
 		tx.To = "1VerifNotAnAddressAtAll"
@@ -305,7 +403,24 @@ func (ru *run) body(t txSpec, forward bool) *types.Transaction {
 			act.ContractAddr, act.Para = keyAddr[int((t.Uniq+1)%3)], rawOf(keyAddr[int((t.Uniq+2)%3)])
 		}
 		tx.Payload = types.Encode(act)
-		tx.Execer = append(bytes.TrimSuffix(tx.Execer, []byte("none")), []byte("evm")...)
+		tx.Execer = ru.execerOf(t, forward, "evm")
+	case "realblocked", "realok", "realsame", "realsameblocked":
+		// coins transfer: the payload names the recipient (GetRealToAddr reads it on a parachain node)
+		tx.Execer = ru.execerOf(t, forward, "coins")
+		pto := keyAddr[int((t.Uniq+1)%3)]
+		tx.To = address.ExecAddress(string(tx.Execer))
+		switch t.To {
+		case "realblocked":
+			pto = keyAddr[kBlockedTo]
+		case "realsame":
+			tx.To = pto
+		case "realsameblocked":
+			pto = keyAddr[kBlockedTo]
+			tx.To = pto
+		}
+		act := &cty.CoinsAction{Ty: cty.CoinsActionTransfer, Value: &cty.CoinsAction_Transfer{
+			Transfer: &types.AssetsTransfer{Amount: int64(t.Uniq), To: pto, Note: make([]byte, t.Pad)}}}
+		tx.Payload = types.Encode(act)
 	default:
 		tx.To = keyAddr[int(t.Uniq%3)]
 	}
@@ -313,6 +428,44 @@ func (ru *run) body(t txSpec, forward bool) *types.Transaction {
 		tx.ChainID = ru.cfg.GetChainID() + 1
 	}
 	return tx
+}
+
+// blFacts: the blacklist facts of a transaction by construction (bits of Model.v t_bl)
+func (ru *run) blFacts(t txSpec, sender int, tx *types.Transaction) int {
+	bl := 0
+	if sender == kBlocked {
+		bl |= 1
+	}
+	toListed := t.To == "blocked" || t.To == "realsameblocked"
+	if toListed {
+		bl |= 2
+	}
+	diff, realListed := false, toListed
+	if ru.spec.Para && (t.To == "realblocked" || t.To == "realok") && t.Exec != "notitle" {
+		// the coins executor type is bound to this history's parachain configuration (whatever the title;
+		// "user.p.foo" names no executor type)
+		diff, realListed = true, t.To == "realblocked"
+	}
+	if diff {
+		bl |= 4
+	}
+	if realListed {
+		bl |= 8
+	}
+	if t.Exec != "notitle" { // "user.p.foo" is not an evm execer whatever the payload
+		switch t.To {
+		case "evmcontract":
+			bl |= 16 | 32
+		case "evmpara":
+			bl |= 16 | 64
+		case "evmok":
+			bl |= 16
+		}
+	}
+	if (tx.GetRealToAddr() != tx.To) != diff {
+		panic(fmt.Sprintf("real recipient label: %q %q %q", tx.Execer, tx.To, tx.GetRealToAddr()))
+	}
+	return bl
 }
 
 func sign(tx *types.Transaction, t txSpec) {
@@ -350,7 +503,8 @@ func (ru *run) factsOf(tx *types.Transaction, t txSpec) facts {
 		f.Sender = t.Other
 	}
 	f.Eth = f.HasSig && (f.Sender == kEth0 || f.Sender == kEth1)
-	f.Blocked = f.Sender == kBlocked || t.To == "blocked" || t.To == "evmcontract" || t.To == "evmpara"
+	f.Bl = ru.blFacts(t, f.Sender, tx)
+	f.Para = paraID(tx.Execer)
 	// sanity of the labels that are cheap to cross-check without running the code under test
 	if tx.Signature != nil && tx.From() != keyAddr[f.Sender] {
 		panic("sender label")
@@ -381,14 +535,15 @@ func decodesAsGroup(h []byte) (bool, int) {
 }
 
 func (ru *run) build(s subSpec) *built {
-	b := &built{struOK: true, forward: s.Forward}
+	b := &built{struOK: true}
 	rate := ru.spec.MinFee
 	switch s.Kind {
-	case "nil":
+	case "nil", "baddata":
 		b.nilMsg = true
 		return b
 	case "ref":
-		return ru.subs[s.Ref]
+		c := *ru.subs[s.Ref]
+		return &c
 	case "plain", "badcount", "strayhdr", "undecodable":
 		t := s.Txs[0]
 		tx := ru.body(t, s.Forward)
@@ -422,6 +577,7 @@ func (ru *run) build(s subSpec) *built {
 		if s.Kind != "plain" {
 			b.shape = "bad"
 		}
+		ru.checkForward(b)
 		return b
 	}
 	// groups
@@ -556,7 +712,14 @@ func (ru *run) build(s subSpec) *built {
 	of.ID = ru.id(outer.Hash())
 	of.Fee, of.Nonce, of.Size = outer.Fee, outer.Nonce, int64(types.Size(outer))
 	of.Eth = of.HasSig && (of.Sender == kEth0 || of.Sender == kEth1)
-	of.Blocked = of.Sender == kBlocked || b.members[0].Blocked
+	of.Bl = b.members[0].Bl &^ 1 // recipient, payload: the first member's; sender: the wrapper's own signature
+	if of.Sender == kBlocked {
+		of.Bl |= 1
+	}
+	of.HasG, of.GExp = true, nil
+	for _, m := range ms {
+		of.GExp = append(of.GExp, m.Expire)
+	}
 	if s.Txs[0].ExecBad {
 		ru.exBad[string(outer.Hash())] = true
 	}
@@ -564,7 +727,17 @@ func (ru *run) build(s subSpec) *built {
 		panic("wrapper sender label")
 	}
 	b.tx, b.outer = outer, of
+	ru.checkForward(b)
 	return b
+}
+
+// checkForward: the forwarding label by construction (parachain node, execer of the submitted transaction is
+// not this parachain's) against types.IsForward2MainChainTx
+func (ru *run) checkForward(b *built) {
+	b.forward = ru.spec.Para && paraID(b.tx.Execer) != 2
+	if types.IsForward2MainChainTx(ru.cfg, b.tx) != b.forward {
+		panic("forward label")
+	}
 }
 
 // ---------------------------------------------------------------- scripted neighbour modules
@@ -581,9 +754,12 @@ func (ru *run) serve(topic string, h func(c queue.Client, m *queue.Message)) {
 
 func newRun(spec histSpec) *run {
 	ru := &run{spec: spec, onCh: map[string]bool{}, exBad: map[string]bool{}, idOf: map[string]int{}, sigOf: map[string]int{}}
-	ru.cfg = getCfg(spec.Para, spec.MaxTxNum)
+	ru.cfg = getCfg(spec.Para, spec.MaxTxNum, spec.Forks)
+	// GetRealToAddr of the coins executor type reads the configuration the type is bound to
+	types.LoadExecutorType("coins").SetConfig(ru.cfg)
 	ru.now = time.Now().Unix() - 100
 	ru.bt = ru.now - spec.BtBack
+	ru.clock, ru.height = ru.now, spec.Height
 	setNow(ru.now)
 	ru.q = queue.New("channel")
 	ru.q.SetConfig(ru.cfg)
@@ -662,8 +838,9 @@ func (ru *run) close() {
 	}()
 }
 
+// setNow pins types.Now() to second v (50 ms into it: the step has 0.95 s of real time before the second rolls)
 func setNow(v int64) {
-	types.SetTimeDelta(v*int64(time.Second) + int64(time.Second)/2 - time.Now().UnixNano())
+	types.SetTimeDelta(v*int64(time.Second) + int64(time.Second)/20 - time.Now().UnixNano())
 }
 
 func (ru *run) ask(topic string, ty int64, data interface{}) *queue.Message {
@@ -686,12 +863,120 @@ type obsT struct {
 }
 
 func (ru *run) submit(b *built) obsT {
-	setNow(ru.now)
 	var data interface{}
 	if !b.nilMsg {
 		data = types.CloneTx(b.tx)
 	}
-	r := ru.ask("mempool", types.EventTx, data)
+	return ru.send(types.EventTx, data)
+}
+
+// delay: EventAddDelayTx
+func (ru *run) delay(s subSpec, b *built) obsT {
+	switch s.Kind {
+	case "baddata":
+		return ru.send(types.EventAddDelayTx, &types.ReqNil{})
+	case "nil":
+		return ru.send(types.EventAddDelayTx, &types.DelayTx{EndDelayTime: b.end})
+	}
+	return ru.send(types.EventAddDelayTx, &types.DelayTx{Tx: types.CloneTx(b.tx), EndDelayTime: b.end})
+}
+
+func (ru *run) endOf(s subSpec) int64 {
+	switch s.EndMode {
+	case "bt":
+		return ru.bt + s.EndOff
+	case "height":
+		return s.EndOff
+	}
+	return s.EndOff
+}
+
+// blockOf: the block of an EventAddBlock step
+func (ru *run) blockOf(s subSpec, commits []*built) *types.Block {
+	blk := &types.Block{Height: s.BH, BlockTime: ru.bt + s.BBT}
+	for _, i := range s.BTxs {
+		b := ru.subs[i]
+		if b == nil || b.nilMsg || b.tx == nil {
+			continue
+		}
+		txs := []*types.Transaction{b.tx}
+		if b.shape == "group" {
+			txs = b.memTxs
+		}
+		for _, tx := range txs {
+			blk.Txs = append(blk.Txs, types.CloneTx(tx))
+		}
+	}
+	for k, c := range commits {
+		act := &nty.NoneAction{Ty: nty.TyCommitDelayTxAction, Value: &nty.NoneAction_CommitDelayTx{CommitDelayTx: &nty.CommitDelayTx{
+			DelayTx: common.ToHex(types.Encode(c.tx)), RelativeDelayTime: c.rt, RelativeDelayHeight: c.rh}}}
+		tx := &types.Transaction{Execer: []byte(ru.title() + "none"), Payload: types.Encode(act), To: keyAddr[0],
+			Nonce: int64(len(ru.hashes)*100 + k), ChainID: ru.cfg.GetChainID()}
+		tx.Sign(sigTy[0], privs[0])
+		blk.Txs = append(blk.Txs, tx)
+	}
+	return blk
+}
+
+// block: EventAddBlock (not answered), then wait until the event loop has handled it and the goroutine that
+// re-submits released delayed transactions is at rest
+func (ru *run) block(s subSpec, commits []*built) obsT {
+	ru.clock = ru.now + s.BNow
+	setNow(ru.clock)
+	blk := ru.blockOf(s, commits)
+	ru.mu.Lock()
+	for _, tx := range blk.Txs {
+		ru.onCh[string(tx.Hash())] = true
+	}
+	ru.mu.Unlock()
+	m := ru.cli.NewMessage("mempool", types.EventAddBlock, &types.BlockDetail{Block: blk})
+	if err := ru.cli.Send(m, true); err != nil {
+		panic(err)
+	}
+	ru.ask("mempool", types.EventGetMempoolSize, nil)
+	quiesce()
+	if types.Now().Unix() != ru.clock {
+		ru.slipped = true
+	}
+	return obsT{}
+}
+
+// quiesce: every pushDelayTxRoutine goroutine of the process is parked in its own select (a goroutine that has
+// been handed a list is runnable or deeper in SendTx), seen twice in a row
+func quiesce() {
+	idle := 0
+	buf := make([]byte, 1<<20)
+	for i := 0; idle < 2; i++ {
+		if i > 200000 {
+			panic("the delayed-transaction goroutine does not come to rest")
+		}
+		n := runtime.Stack(buf, true)
+		for n == len(buf) {
+			buf = make([]byte, 2*len(buf))
+			n = runtime.Stack(buf, true)
+		}
+		ok := true
+		for _, g := range strings.Split(string(buf[:n]), "\n\n") {
+			if !strings.Contains(g, ").pushDelayTxRoutine") {
+				continue
+			}
+			ls := strings.SplitN(g, "\n", 3)
+			if len(ls) < 2 || !strings.Contains(ls[0], "[select") || !strings.Contains(ls[1], ").pushDelayTxRoutine(") {
+				ok = false
+			}
+		}
+		if ok {
+			idle++
+		} else {
+			idle = 0
+			time.Sleep(300 * time.Microsecond)
+		}
+	}
+}
+
+func (ru *run) send(ty int64, data interface{}) obsT {
+	setNow(ru.clock)
+	r := ru.ask("mempool", ty, data)
 	rep, ok := r.GetData().(*types.Reply)
 	var o obsT
 	switch {
@@ -702,9 +987,8 @@ func (ru *run) submit(b *built) obsT {
 	default:
 		o.Reply, o.Msg = classify(string(rep.Msg)), string(rep.Msg)
 	}
-	if types.Now().Unix() != ru.now {
-		fmt.Println("virtual clock slipped")
-		os.Exit(3)
+	if types.Now().Unix() != ru.clock {
+		ru.slipped = true
 	}
 	return o
 }
@@ -735,16 +1019,31 @@ func zl(v int64) string {
 	return fmt.Sprintf("%d", v)
 }
 
-func coqTx(f facts) string {
-	return hlib.App("mkTx", hlib.N(uint64(f.ID)), hlib.N(uint64(f.Sender)), hlib.Bool(f.HasSig), hlib.Bool(f.SigOK),
-		hlib.Bool(f.ToValid), hlib.Bool(f.Blocked), hlib.Bool(f.OnChain), zl(f.Expire), hlib.Bool(f.HdrEmp), zl(f.Fee),
-		zl(f.Size), hlib.Bool(f.ChainOK), hlib.Bool(f.Eth), zl(f.Nonce), hlib.Bool(f.ExecOK), hlib.N(uint64(f.SigID)))
+func zlist(xs []int64) string {
+	var s []string
+	for _, x := range xs {
+		s = append(s, zl(x))
+	}
+	return hlib.List(s)
 }
 
-func coqSub(b *built) string {
-	if b.nilMsg {
-		return "SNil"
+// coqTx: the facts of a transaction when it is handed over (on-chain: what the scripted blockchain module
+// answers from now on)
+func (ru *run) coqTx(f facts) string {
+	ru.mu.Lock()
+	onch := f.OnChain || ru.onCh[string(ru.hashes[f.ID-1])]
+	ru.mu.Unlock()
+	g := "None"
+	if f.HasG {
+		g = "(Some " + zlist(f.GExp) + ")"
 	}
+	return hlib.App("mkTx", hlib.N(uint64(f.ID)), hlib.N(uint64(f.Sender)), hlib.Bool(f.HasSig), hlib.Bool(f.SigOK),
+		hlib.Bool(f.ToValid), hlib.N(uint64(f.Bl)), hlib.Bool(onch), zl(f.Expire), hlib.Bool(f.HdrEmp), zl(f.Fee),
+		zl(f.Size), hlib.Bool(f.ChainOK), hlib.Bool(f.Eth), zl(f.Nonce), hlib.Bool(f.ExecOK), hlib.N(uint64(f.SigID)),
+		hlib.N(uint64(f.Para)), g)
+}
+
+func (ru *run) coqSubOnly(b *built) string {
 	sh := "Plain"
 	switch b.shape {
 	case "bad":
@@ -752,11 +1051,49 @@ func coqSub(b *built) string {
 	case "group":
 		var ms []string
 		for _, m := range b.members {
-			ms = append(ms, coqTx(m))
+			ms = append(ms, ru.coqTx(m))
 		}
 		sh = hlib.App("Group", hlib.List(ms), hlib.Bool(b.struOK))
 	}
-	return hlib.App("STx", hlib.App("mkSub", coqTx(b.outer), sh, hlib.Bool(b.forward)))
+	return hlib.App("mkSub", ru.coqTx(b.outer), sh, hlib.Bool(b.forward))
+}
+
+func (ru *run) coqSub(b *built) string {
+	if b.nilMsg {
+		return "SNil"
+	}
+	return hlib.App("STx", ru.coqSubOnly(b))
+}
+
+func (ru *run) coqDelay(s subSpec, b *built) string {
+	switch s.Kind {
+	case "baddata":
+		return "DBad"
+	case "nil":
+		return hlib.App("DNil", zl(b.end))
+	}
+	return hlib.App("DTx", ru.coqSubOnly(b), zl(b.end))
+}
+
+func (ru *run) coqBlock(s subSpec, commits []*built) string {
+	var ids, cs []string
+	for _, i := range s.BTxs {
+		b := ru.subs[i]
+		if b == nil || b.nilMsg || b.tx == nil {
+			continue
+		}
+		if b.shape == "group" {
+			for _, m := range b.members {
+				ids = append(ids, hlib.N(uint64(m.ID)))
+			}
+		} else {
+			ids = append(ids, hlib.N(uint64(b.outer.ID)))
+		}
+	}
+	for _, c := range commits {
+		cs = append(cs, "("+ru.coqSubOnly(c)+", "+zl(c.rt)+", "+zl(c.rh)+")")
+	}
+	return hlib.App("mkB", zl(s.BH), zl(ru.bt+s.BBT), zl(ru.now+s.BNow), hlib.List(ids), hlib.List(cs))
 }
 
 func nlist(xs []int) string {
@@ -769,37 +1106,97 @@ func nlist(xs []int) string {
 
 func (ru *run) coqCfg() string {
 	s := ru.spec
-	return hlib.App("mkCfg", hlib.Bool(s.Synced), hlib.Bool(s.Para),
-		hlib.Bool(ru.cfg.IsFork(s.Height+1, types.ForkTxChainIDStrict)), hlib.Bool(ru.cfg.IsFork(s.Height+1, "ForkBlockCheck")),
-		hlib.Bool(ru.cfg.IsEnableFork(s.Height+1, "ForkTxHeight", ru.cfg.IsEnable("TxHeight"))),
+	f := s.Forks
+	for _, x := range []struct {
+		n string
+		h int64
+	}{{types.ForkTxChainIDStrict, f.Strict}, {"ForkBlockCheck", f.BlockCheck}, {"ForkTxHeight", f.TxHeight}, {"ForkTxGroupPara", f.ParaFork}} {
+		if ru.cfg.GetFork(x.n) != x.h {
+			panic("fork height not effective: " + x.n)
+		}
+	}
+	return hlib.App("mkS", hlib.Bool(s.Synced), hlib.Bool(s.Para), zl(f.Strict), zl(f.BlockCheck), zl(f.TxHeight), zl(f.ParaFork),
+		hlib.Bool(ru.cfg.IsEnable("TxHeight")),
 		zl(s.MinFee), zl(ru.cfg.GetMaxTxFee(s.Height+1)), hlib.Bool(s.Level), zl(s.MaxRate), zl(int64(s.MaxTxNum)),
-		zl(s.PerSender), zl(s.Cap), hlib.Bool(!s.DisableExec), zl(s.Height), zl(ru.bt), zl(ru.now),
-		hlib.List([]string{hlib.Pair(hlib.N(kEth0), zl(s.Nonces[0])), hlib.Pair(hlib.N(kEth1), zl(s.Nonces[1]))}))
+		zl(s.PerSender), zl(s.Cap), hlib.Bool(!s.DisableExec),
+		hlib.List([]string{hlib.Pair(hlib.N(kEth0), zl(s.Nonces[0])), hlib.Pair(hlib.N(kEth1), zl(s.Nonces[1]))})) +
+		" " + hlib.App("mkH", zl(s.Height), zl(ru.bt), zl(ru.now))
 }
 
 func runHist(o *hlib.Out, spec histSpec) {
+	for try := 0; ; try++ {
+		if runHistOnce(o, spec) {
+			return
+		}
+		if try >= 6 {
+			fmt.Println("virtual clock slipped in 7 runs of one history")
+			os.Exit(3)
+		}
+		nSlip++
+	}
+}
+
+func runHistOnce(o *hlib.Out, spec histSpec) bool {
 	ru := newRun(spec)
 	defer ru.close()
-	nSub += len(spec.Subs)
+	var commits [][]*built
 	for _, s := range spec.Subs {
-		ru.subs = append(ru.subs, ru.build(s))
+		var b *built
+		var cs []*built
+		if s.Kind == "block" {
+			for _, c := range s.Commits {
+				cb := ru.build(c)
+				cb.rt, cb.rh = c.RelTime, c.RelH
+				cs = append(cs, cb)
+			}
+			b = &built{nilMsg: true}
+		} else {
+			b = ru.build(s)
+			if s.Op == "delay" {
+				b.end = ru.endOf(s)
+			}
+		}
+		ru.subs = append(ru.subs, b)
+		commits = append(commits, cs)
 	}
 	var steps []string
 	var impl []obsT
 	admitted, rejected := 0, 0
-	for _, b := range ru.subs {
-		ob := ru.submit(b)
-		ru.membership(&ob)
-		if ob.Reply == 0 {
-			admitted++
-		} else {
-			rejected++
+	for i, s := range spec.Subs {
+		b := ru.subs[i]
+		var term string
+		var ob obsT
+		switch {
+		case s.Kind == "block":
+			term = hlib.App("OBlock", ru.coqBlock(s, commits[i]))
+			ob = ru.block(s, commits[i])
+		case s.Op == "delay":
+			term = hlib.App("ODelay", ru.coqDelay(s, b))
+			ob = ru.delay(s, b)
+			if ob.Reply == 0 {
+				admitted++
+			} else {
+				rejected++
+			}
+		default:
+			term = hlib.App("OTx", ru.coqSub(b))
+			ob = ru.submit(b)
+			if ob.Reply == 0 {
+				admitted++
+			} else {
+				rejected++
+			}
 		}
+		ru.membership(&ob)
 		impl = append(impl, ob)
-		steps = append(steps, "("+coqSub(b)+", "+hlib.N(uint64(ob.Reply))+", "+nlist(ob.Present)+", "+zl(ob.Size)+")")
+		steps = append(steps, "("+term+", "+hlib.N(uint64(ob.Reply))+", "+nlist(ob.Present)+", "+zl(ob.Size)+")")
 	}
-	kind := spec.Stream
-	o.Emit(kind, admitted > 0 && rejected > 0, hlib.App("CHist", ru.coqCfg(), hlib.List(steps)), spec, impl)
+	if ru.slipped {
+		return false
+	}
+	nSub += len(spec.Subs)
+	o.Emit(spec.Stream, admitted > 0 && rejected > 0, hlib.App("CHist", ru.coqCfg(), hlib.List(steps)), spec, impl)
+	return true
 }
 
 func main() {
@@ -828,9 +1225,17 @@ func main() {
 	for _, h := range clauseMatrix(opts.Seed) {
 		runHist(o, h)
 	}
-	nG, nU := 28, 14
+	for _, gen := range []func(uint64) []histSpec{paraTitles, realTo, headerScenario, delayScenario} {
+		for _, h := range gen(opts.Seed) {
+			runHist(o, h)
+		}
+	}
+	nG, nU, nM := 18, 10, 16
 	if opts.Thorough() {
-		nG, nU = 900, 400
+		nG, nU, nM = 600, 300, 500
+	}
+	for i := 0; i < nM; i++ {
+		runHist(o, movingHist("moving", opts.Seed, i, opts.Thorough()))
 	}
 	for i := 0; i < nG; i++ {
 		runHist(o, genHist("guarded", opts.Seed, i, opts.Thorough()))
@@ -839,5 +1244,5 @@ func main() {
 		runHist(o, genHist("unrestricted", opts.Seed, i, opts.Thorough()))
 	}
 	types.SetTimeDelta(0)
-	fmt.Printf("cases: %d submissions: %d\n", o.Count(), nSub)
+	fmt.Printf("cases: %d submissions: %d clock slips: %d\n", o.Count(), nSub, nSlip)
 }
